@@ -15,6 +15,11 @@ import (
 // vector, optionally a second crash/shutdown, and a settle phase with the server up.
 // thorough = all of it, quick = a seeded sample of the same set.  Plus seeded random long histories and
 // the counter family (edge values around multiples of 2^32, random 64-bit values).
+//
+// Answers are three-valued: u = answered, d = not received, l = accepted by the server but the client sees a
+// failure.  `!k~` = crash in the middle of the file write of the k-th step.  `@m:deq|retry:<ans>` = a step of
+// the background processor executed while the API call is parked in front of marker m (the processor
+// goroutine runs concurrently with every API call in production).
 
 type sink struct {
 	r    *rand.Rand
@@ -119,6 +124,13 @@ func endings(main []string, nsess int, emit func(pre []string, dead bool)) {
 			m := append(append([]string(nil), main[:len(main)-1]...), fmt.Sprintf("%s !%d", last, k))
 			emit(m, true)
 		}
+		if w := strings.Fields(last)[0]; w == "start" || w == "stop" {
+			// crash inside the file write of each persist step
+			for k := 1; k <= kmax(last, nsess); k++ {
+				m := append(append([]string(nil), main[:len(main)-1]...), fmt.Sprintf("%s !%d~", last, k))
+				emit(m, true)
+			}
+		}
 	}
 	emit(cp("crash"), true)
 	vs := vectors(nsess)
@@ -131,6 +143,9 @@ func endings(main []string, nsess int, emit func(pre []string, dead bool)) {
 	for k := 1; k <= kmax("shutdown", nsess); k++ {
 		emit(cp(fmt.Sprintf("shutdown %s !%d", vs[0], k)), true)
 	}
+	// crash inside the write of pending.json (only possible when something is pending: server down)
+	emit(cp(fmt.Sprintf("shutdown %s !%d~", vs[len(vs)-1], kmax("shutdown", nsess))), true)
+	emit(cp(fmt.Sprintf("shutdown %s !%d~", vs[len(vs)-1], nsess+1)), true)
 }
 
 func withTails(s *sink, pre []string, nsess int, dead, full bool) {
@@ -158,6 +173,81 @@ func exhaustive1(s *sink, cfg string, depth int) {
 		rec([]string{cfg, st}, depth)
 		for _, junk := range []string{"stop s1 1 u", "interim s1 u", "deq u", "retry u"} {
 			rec([]string{cfg, junk, st}, 1)
+		}
+	}
+}
+
+// the third answer: the server accepts the record but the client sees a failure
+func exhaustiveLost(s *sink) {
+	after := []string{"interim s1 u", "interim s1 l", "stop s1 1 u", "stop s1 1 d", "stop s1 1 l", "deq u", "deq d",
+		"deq l", "retry u", "retry l", "retry lu", "retry ul"}
+	var rec func(pre []string, d int, hasL bool)
+	rec = func(pre []string, d int, hasL bool) {
+		if hasL {
+			endings(pre, 1, func(m []string, dead bool) { withTails(s, m, 1, dead, true) })
+		}
+		if d == 0 {
+			return
+		}
+		for _, op := range after {
+			rec(append(append([]string(nil), pre...), op), d-1, hasL || strings.Contains(op, "l"))
+		}
+	}
+	rec([]string{"new 3 8", "start s1 i1 u"}, 3, false)
+	rec([]string{"new 3 8", "start s1 i1 l"}, 2, true)
+	rec([]string{"new 1 1", "start s1 i1 l"}, 2, true)
+}
+
+// the background processor runs while an API call is in progress
+func exhaustiveInject(s *sink) {
+	ans := []string{"u", "d", "l"}
+	kinds := []string{"deq", "retry"}
+	for _, a0 := range ans {
+		for _, pre := range [][]string{nil, {"interim s1 d"}, {"interim s1 l"}} {
+			for _, a2 := range ans {
+				for _, m := range []int{3, 4, 5, 6} {
+					for _, k := range kinds {
+						for _, a3 := range []string{"u", "d", "l"} {
+							main := append([]string{"new 3 8", "start s1 i1 " + a0}, pre...)
+							main = append(main, fmt.Sprintf("stop s1 1 %s @%d:%s:%s", a2, m, k, a3))
+							endings(main, 1, func(p []string, dead bool) { withTails(s, p, 1, dead, true) })
+							// two injections in one call
+							if m == 5 {
+								main2 := append([]string(nil), main[:len(main)-1]...)
+								main2 = append(main2, fmt.Sprintf("stop s1 1 %s @5:%s:%s @6:retry:u", a2, k, a3))
+								endings(main2, 1, func(p []string, dead bool) { withTails(s, p, 1, dead, true) })
+							}
+						}
+					}
+				}
+			}
+		}
+	}
+	// the processor delivers one session's queued Stop while another session starts / stops / is drained
+	for _, a1 := range ans[1:] {
+		for _, a3 := range ans {
+			for _, k := range kinds {
+				for _, second := range []string{"start s2 i2 %s @1:%s:%s", "start s2 i2 %s @2:%s:%s",
+					"stop s2 2 %s @4:%s:%s", "stop s2 2 %s @5:%s:%s", "stop s2 2 %s @6:%s:%s"} {
+					for _, a2 := range ans {
+						main := []string{"new 3 8", "start s1 i1 u", "start s2 i2 u", "stop s1 1 " + a1}
+						op := fmt.Sprintf(second, a2, k, a3)
+						if strings.HasPrefix(op, "start s2") {
+							main = []string{"new 3 8", "start s1 i1 u", "stop s1 1 " + a1}
+						}
+						main = append(main, op)
+						endings(main, 2, func(p []string, dead bool) { withTails(s, p, 2, dead, false) })
+					}
+				}
+				// during the shutdown drain
+				for _, v := range []string{"uu", "dd", "ud", "lu", "dl"} {
+					for _, m := range []int{9, 19} {
+						main := []string{"new 3 8", "start s1 i1 u", "start s2 i2 u", "start s3 i3 u", "stop s3 3 " + a1,
+							fmt.Sprintf("shutdown %s @%d:%s:%s", v, m, k, a3)}
+						withTails(s, main, 3, true, false)
+					}
+				}
+			}
 		}
 	}
 }
@@ -296,7 +386,7 @@ func randomSeq(r *rand.Rand) []string {
 		}
 		b := make([]byte, n)
 		for i := range b {
-			b[i] = "uud"[r.Intn(3)]
+			b[i] = "uuudl"[r.Intn(5)]
 		}
 		return string(b)
 	}
@@ -341,8 +431,18 @@ func randomSeq(r *rand.Rand) []string {
 		default:
 			op = "final"
 		}
+		switch strings.Fields(op)[0] {
+		case "start", "interim", "stop", "shutdown":
+			if r.Intn(5) == 0 { // the processor runs while the call is parked at one of its markers
+				ms := map[string][]int{"start": {1, 2}, "interim": {17}, "stop": {3, 4, 5, 6}, "shutdown": {9, 19}}[strings.Fields(op)[0]]
+				op += fmt.Sprintf(" @%d:%s:%s", ms[r.Intn(len(ms))], []string{"deq", "retry"}[r.Intn(2)], ans(1+r.Intn(2)))
+			}
+		}
 		if !strings.HasPrefix(op, "ctr") && op != "crash" && op != "final" && r.Intn(6) == 0 {
 			op += fmt.Sprintf(" !%d", 1+r.Intn(5))
+			if w := strings.Fields(op)[0]; r.Intn(4) == 0 && w != "deq" && w != "retry" {
+				op += "~"
+			}
 			alive, active = false, map[int]bool{}
 		}
 		seq = append(seq, op)
@@ -361,6 +461,8 @@ func generate(r *rand.Rand, tier string, emit func([]string)) {
 	if thorough {
 		exhaustive1(s, "new 3 8", 3)
 		exhaustive1(s, "new 1 1", 2)
+		exhaustiveLost(s)
+		exhaustiveInject(s)
 		exhaustive2(s)
 		exhaustive3(s)
 		counters(s, r, 4000)
@@ -373,6 +475,10 @@ func generate(r *rand.Rand, tier string, emit func([]string)) {
 	exhaustive1(s, "new 3 8", 3)
 	s.keep = 0.03
 	exhaustive1(s, "new 1 1", 2)
+	s.keep = 0.008
+	exhaustiveLost(s)
+	s.keep = 0.01
+	exhaustiveInject(s)
 	s.keep = 0.005
 	exhaustive2(s)
 	s.keep = 0.02
@@ -385,6 +491,14 @@ func generate(r *rand.Rand, tier string, emit func([]string)) {
 
 // the minimal witnesses of the C08 findings (also in corpus/acct)
 var witnesses = [][]string{
+	// C08-a: the processor delivers the queued Stop while StopSession is parked before it deletes the session
+	{"new 3 8", "start s1 i1 u", "stop s1 1 d @5:deq:u", "final", "shutdown -", "restart u", "final"},
+	// … and while the shutdown drain is still running
+	{"new 3 8", "start s1 i1 u", "start s2 i2 u", "shutdown du @9:deq:u", "restart uu", "deq u", "retry -", "final"},
+	// C08-b: crash in the middle of the rewrite of an existing session file
+	{"new 3 8", "start s1 i1 u", "stop s1 1 u !1~", "restart u", "final"},
+	// C08-c: the server accepts the Stop, the reply is lost, the client sends it again
+	{"new 3 8", "start s1 i1 u", "stop s1 1 l", "retry u", "deq u", "final"},
 	// D23: failed Stop is only queued in memory, session file removed, crash loses it
 	{"new 3 8", "start s1 i1 u", "stop s1 1 d", "crash", "restart u", "deq u", "retry -", "final"},
 	// D24: queued Start overtaken by an immediately successful Stop
